@@ -26,6 +26,7 @@ SITES = {
     "maprange internal/parser/lr1/items/itemset.go *ItemSet.Action conflictMap": "C11_action_and_conflict_count",
     "maprange internal/parser/lr1/items/itemset.go *ItemSet.Equal this.imap": "boolean set equality: result is a conjunction over the keys",
     "maprange internal/lexer/symbols/symbols.go NewSymbols lexpart.Imports": "imports are unreachable from the grammar (always empty map)",
+    "maprange internal/ast/lexinline.go *LexPart.InlineRegDefs this.stringLitToks": "copies map entries into another map (insertion order is irrelevant)",
     # diagnostics / report files only (stderr, stdout, LR1_*.txt, first.txt, lexer_sets.txt): outside "generated Go packages"
     "maprange internal/ast/grammar.go consistent defs": "warnings on stderr only",
     "maprange internal/ast/grammar.go consistent used": "warnings on stderr; the error flag is a disjunction over the keys",
